@@ -411,3 +411,86 @@ void World::server_handle(VFd &s, bool tcp, const std::string &wire, size_t stre
     if (beh == B_DUP) { add_flight(FL_DGRAM, r.arrive_at + 1 + (int64_t)(hash_mix(beh_key, (uint64_t)rid * 3) % 50000), s.fd, out, sv.cfg.addr, rid); bump("dup_sent"); }
   }
 }
+
+
+// ---------- off-path attacker ----------
+// variants: 0 wrong id, 1 wrong socket (right content), 2 wrong source address, 3 wrong qname, 4 wrong qtype, 5 wrong qclass,
+// 6 wrong question count, 7 letter case changed, 8 cookie missing, 9 wrong client cookie, 10 short cookie, 11 valid copy (control)
+int World::forge_response(const Tx &T, int variant, int fd, int64_t at, uint64_t salt) {
+  const Profile &p = prof ? *prof : g_default_profile;
+  if (!T.decode_err.empty() || T.msg.qd.empty() || T.tcp) return -1;
+  VFd *s = get(fd);
+  if (!s || !s->open || s->kind != FD_UDP) return -1;
+  int rid = new_resp().id;
+  Resp &r0 = resps[(size_t)rid];
+  r0.tx = T.id; r0.server = T.server; r0.tcp = false; r0.forged = true; r0.fd = fd; r0.sent_at = now_us; r0.forge_variant = variant;
+  Msg m;
+  m.id = T.msg.id;
+  m.flags = (uint16_t)(F_QR | (T.msg.flags & F_RD) | F_RA);
+  m.qd = T.msg.qd;
+  // always a positive answer with fresh markers so that acceptance is visible
+  {
+    std::vector<int> saved = zone_weights;
+    zone_weights.assign(Z_NZ, 0); zone_weights[Z_DATA] = 1;
+    ZoneAns z;
+    Question q = T.msg.qd[0];
+    if (q.type != T_A && q.type != T_AAAA && q.type != T_TXT && q.type != T_MX && q.type != T_PTR && q.type != T_NS) q.type = T_TXT, m.qd[0].type = T.msg.qd[0].type;
+    build_zone_answer(*this, p, T.msg.qd[0], resps[(size_t)rid], z);
+    zone_weights = saved;
+    m.an = z.an; m.ns = z.ns; m.ar = z.ar;
+  }
+  Resp &r = resps[(size_t)rid];
+  const RR *qopt = T.msg.opt();
+  std::string qcookie;
+  if (qopt) for (auto &o : qopt->opts) if (o.code == 10) qcookie = o.data;
+  ServerState &sv = servers[(size_t)T.server];
+  RR optrr; bool with_opt = qopt != nullptr;
+  optrr.type = T_OPT; optrr.klass = 1232;
+  // by default echo a fully valid cookie when the query carried one
+  if (with_opt && qcookie.size() >= 8) {
+    std::string sc = sv.server_cookie.empty() ? std::string("\x01\x02\x03\x04\x05\x06\x07\x08", 8) : sv.server_cookie;
+    optrr.opts.push_back(EdnsOpt{10, qcookie.substr(0, 8) + sc});
+  }
+  Addr src = sv.cfg.addr;
+  bool flags0x20 = stat.count("cfg.dns0x20") && stat["cfg.dns0x20"];
+  switch (variant) {
+    case 0: m.id = (uint16_t)(m.id + 1 + salt % 65534); r.defect |= DEF_WRONG_ID; break;
+    case 1: r.defect |= DEF_WRONG_SOCKET; break;
+    case 2: { src.a[src.family == AF_INET ? 3 : 15] ^= (uint8_t)(1 + salt % 200); r.defect |= DEF_WRONG_SRC; break; }
+    case 3: { if (!m.qd[0].name.empty()) { std::string &l = m.qd[0].name[m.qd[0].name.size() > 1 ? 1 : 0]; char &ch = l[salt % l.size()]; ch = tolower((unsigned char)ch) == 'x' ? 'y' : 'x'; } for (auto &rr : m.an) rr.name = m.qd[0].name; r.defect |= DEF_WRONG_QNAME; break; }
+    case 4: m.qd[0].type = m.qd[0].type == T_A ? T_AAAA : T_A; r.defect |= DEF_WRONG_QTYPE; break;
+    case 5: m.qd[0].klass = 3; r.defect |= DEF_WRONG_QCLASS; break;
+    case 6: if (salt & 1) m.qd.clear(); else m.qd.push_back(m.qd[0]); r.defect |= DEF_WRONG_QCOUNT; break;
+    case 7: {
+      bool changed = false;
+      for (auto &l : m.qd[0].name) for (auto &ch : l) if (isalpha((unsigned char)ch) && !changed) { ch = (char)(ch ^ 0x20); changed = true; }
+      if (changed && flags0x20) r.defect |= DEF_WRONG_CASE;   // only a defect when 0x20 is in use (UDP)
+      break;
+    }
+    case 8: {
+      optrr.opts.clear();
+      // a missing cookie is a defect once the server proved support, until the 120 s regression period (counted from the first
+      // cookie-less response) is over; stay well inside it
+      std::string k1 = "cookie_proven." + std::to_string(T.server), k2 = "cookie_missing_first." + std::to_string(T.server);
+      if (qcookie.size() >= 8 && stat.count(k1)) {
+        if (!stat.count(k2)) stat[k2] = at;
+        if (at - stat[k2] < 100000000LL) r.defect |= DEF_NO_COOKIE;
+      }
+      break;
+    }
+    case 9: if (!optrr.opts.empty()) { optrr.opts[0].data[salt % 8] ^= 0x5a; r.defect |= DEF_BAD_COOKIE; } break;
+    case 10: if (!optrr.opts.empty()) { optrr.opts[0].data.resize(3 + salt % 5); r.defect |= DEF_BAD_COOKIE; } break;
+    default: break;
+  }
+  if (with_opt) m.ar.push_back(optrr);
+  EncodeOpts eo; eo.compress = (salt & 4) != 0;
+  r.wire = encode(m, eo);
+  r.msg = m; r.rcode = 0; r.src = src; r.arrive_at = at;
+  uint32_t mt = 0xffffffffu;
+  for (auto *sec : {&r.msg.an, &r.msg.ns, &r.msg.ar}) for (auto &rr : *sec) if (rr.type != T_OPT && rr.type != T_SOA && rr.ttl < mt) mt = rr.ttl;
+  r.min_ttl = mt;
+  add_flight(FL_DGRAM, at, fd, r.wire, src, rid);
+  bump("forged_packets");
+  bump("forged.variant" + std::to_string(variant));
+  return rid;
+}
